@@ -624,7 +624,8 @@ def pred_c08(ops, impl):
                 k -= 1
             if fresh:
                 recs = dict(kv.split("=") for kv in last[t[1]][1:-1].split(",") if kv)
-                want = recs.get(t[2], "-")
+                from predicates import unhex as _unhex, hx as _hx
+                want = recs.get(_hx(_unhex(t[2])), "-")
                 if out != want and out != "err":
                     return "op %d: WasmQuery::Raw(%s, %s) = %s but the contract's state dump holds %s" % (n, t[1], t[2], out, want)
     # a transaction made only of storage operations of one contract leaves the other contracts' dumps alone
